@@ -90,7 +90,9 @@ func main() {
 	var normNotes []string
 	if bl := core.LoadBaseline(filepath.Join(*verif, "baseline.json")); bl != nil && os.Getenv("VCHECK_NO_NORMALIZE") == "" {
 		if core.NamesDiffer(abs, ov, bl) {
-			var n1 []string
+			var n0, n1 []string
+			ov, n0 = core.UnbundleParams(abs, ov, *goarch, bl)
+			normNotes = append(normNotes, n0...)
 			ov, n1 = core.RenameBack(abs, ov, *goarch, bl)
 			base := map[string]bool{}
 			for k := range bl.Funcs {
